@@ -121,12 +121,13 @@ fn one(ctx: &Ctx, rep: &mut Report, id: usize, cfg: Cfg, vc: ValueClass, pc: Pro
             Err(e) => rep.violation(&format!("C01 decode-refused {sig_cfg}"), &format!("honest proof does not decode: {e}"), replay.clone()),
         }
     }
-    // the independent reference verifier accepts the same proof
-    if let Some(rp) = Parts::of(&proof).to_ref() {
-        let ok = refbp::ref_verify(&case.transcript(), &case.ref_statement(), &rp);
+    // the independent reference evaluation of the relation (at the challenges the library drew) vanishes too
+    {
+        let parts = Parts::of(&proof);
+        let (_, ok) = verdict_pair(&case.transcript(), &case.statement_public(), &proof, &case.ref_statement(), &parts, VerifyAction::VerifyOnly);
         rep.count("reference_verdicts", 1);
         if !ok {
-            rep.violation(&format!("C01 reference-rejects {sig_cfg}"), "the independent reference verifier rejects the library's honest proof", replay.clone());
+            rep.violation(&format!("C01 reference-rejects {sig_cfg}"), "the independent reference evaluation of the relation does not vanish on the library's honest proof", replay.clone());
         }
     }
     rep.sample(&format!("{GROUP}-{:?}", kind).chars().take(24).collect::<String>(), json!({"case": case.json(), "rng": format!("{kind:?}"), "proof_bytes": proof.to_bytes().len()}));
